@@ -26,7 +26,7 @@ EXPLANATION = ("theorems: the fall-back component is unchanged by every operatio
                "specification store would (most recent write or removal wins), invariant preserved")
 
 FILES = ["a/b", "a/c", "a/d/e", "c", "f.txt"]
-NEWFILES = ["a/n", "a/d/k", "g/h", "a/m/n"]
+NEWFILES = ["a/n", "a/d/k", "g/h", "a/m/n", "a/bb", "cc"]      # "a/bb", "cc": names that extend a fall-back name as TEXT (not as a path)
 DIRS = ["a", "a/d", "g", "a/m"]
 UNIVERSE = [""] + DIRS + FILES + NEWFILES
 DATA = [b"", b"1", b"22", b"three"]
